@@ -86,8 +86,8 @@ def write_locations(claims_term, leaf):
     return out
 
 
-def run(ctx, prog):
-    A = Auditor(ctx, prog)
+def run(ctx, prog, only=None):
+    A = Auditor(ctx, prog, only=only)
     S = prog.structs
 
     for kind, src_leaf, Tsrc, Tclaims, Tinner, new_rx, new_sig, into_rx, dup_inner, opt_leaf in (
@@ -277,7 +277,7 @@ def run(ctx, prog):
         if p.took(nbf, 'None') and p.took(iat, 'None'):
             return None
         return None if any(p.took(c, 'Err') for c in fu) else 'valid numeric date rejected'
-    A.require('numeric-dates/nbf-else-iat-through-the-0000-9999-gate', paths, r_tid, replay=R('[dates]'))
+    A.require('numeric-dates/nbf-else-iat-through-the-0000-9999-gate', paths, r_tid, replay=[R('[dates]'), {'scenario': 'credential_validation', 'cex': {'only': '[dates]'}}])
 
 
 def credential_consistency(A, prog, replay):
@@ -425,6 +425,33 @@ def derived_equality(ctx, prog):
                           r'identity_credential/src/(?:credential|presentation)/[^:>]+\.rs', ['issuer.rs', 'credential.rs', 'presentation.rs', 'subject.rs'],
                           {'scenario': 'claims', 'cex': {'only': '[consistency]'}})
 
+def url_equality(ctx):
+    """identity_core's Url compares as its whole text with the other side's whole text (its one hand-written PartialEq<T: AsRef<str>>):
+    the identifier comparisons of both consistency checks (`vc.id == jti`, `vp.holder == iss`, ...) are this comparison"""
+    prog, info = load(['identity_core'])
+    A = Auditor(ctx, prog)
+    f = prog.one(r'^url::<impl at [^>]*>::eq$')
+    paths, ex = A.paths(f)
+
+    def r_eq(p):
+        if p.kind != 'return':
+            return 'panic ' + p.msg
+        sides = [c for c in p.calls if re.search(r'Url::as_str$|AsRef<str>>::as_ref$', c.name)]
+        cmp_ = [c for c in p.calls if re.search(r'PartialEq.*>::eq$', c.name)]
+        extra = [c for c in p.calls if c not in sides + cmp_ and not c.inlined and not re.search(r'Deref>::deref$', c.name)]
+        if extra:
+            return 'the texts are reshaped before they are compared (%s)' % extra[0].name.split('::')[-1]
+        if len(cmp_) != 1 or len(sides) != 2:
+            return 'not one comparison of the two whole texts'
+        a, b = strip(cmp_[0].args[0]), strip(cmp_[0].args[1])
+        got = {term_str(a), term_str(b)}
+        want = {term_str(strip(sides[0].ret)), term_str(strip(sides[1].ret))}
+        if got != want or not (mentions(sides[0].args, r'^self$') or mentions(sides[1].args, r'^self$')) or not (mentions(sides[0].args, r'^other$') or mentions(sides[1].args, r'^other$')):
+            return 'the comparison is not between self.as_str() and other.as_ref()'
+        return None if isinstance(p.val, VBool) and p.implies(p.val.e == ex.sym_bool(cmp_[0].ret).e) else 'result is not that comparison'
+    A.require('Url::eq/whole-text-against-whole-text', paths, r_eq, replay=[R('[consistency]'), {'scenario': 'presentation_validation', 'cex': {'only': '[consistency]'}}])
+
+
 def main(ctx):
     prog, info = load(CRATES, src_only=SRC)
     ctx.extra['mir'] = info
@@ -432,6 +459,7 @@ def main(ctx):
                     'Timestamp::to_unix/from_unix being inverse on the range (C13)', 'Cow::into_owned / Borrowed being value-preserving']
     guarded(ctx, 'claims conversion wiring and consistency', 'M', lambda: run(ctx, prog))
     guarded(ctx, 'structural equality', 'M', lambda: derived_equality(ctx, prog))
+    guarded(ctx, 'Url equality', 'M', lambda: url_equality(ctx))
     for kind in ('credential', 'presentation'):
         guarded(ctx, '%s claims serde shape' % kind, 'M', lambda kind=kind: claims_serde_shape(ctx, prog, kind))
     # presentations: expiry, issuance (nbf before iat) and audience are converted inside the presentation validator, not in
